@@ -230,6 +230,76 @@ fn c20_nth() {
     println!("NONE {}", cases);
 }
 
+
+use html2text::render::TextDecorator;
+#[derive(Clone)]
+struct Dec { quote: &'static str, bullet: &'static str, header: &'static str, ol_suffix: &'static str }
+impl TextDecorator for Dec {
+    type Annotation = ();
+    fn decorate_link_start(&mut self, _u: &str) -> (String, ()) { ("[".into(), ()) }
+    fn decorate_link_end(&mut self) -> String { "]".into() }
+    fn decorate_em_start(&self) -> (String, ()) { ("".into(), ()) }
+    fn decorate_em_end(&self) -> String { "".into() }
+    fn decorate_strong_start(&self) -> (String, ()) { ("".into(), ()) }
+    fn decorate_strong_end(&self) -> String { "".into() }
+    fn decorate_strikeout_start(&self) -> (String, ()) { ("".into(), ()) }
+    fn decorate_strikeout_end(&self) -> String { "".into() }
+    fn decorate_code_start(&self) -> (String, ()) { ("".into(), ()) }
+    fn decorate_code_end(&self) -> String { "".into() }
+    fn decorate_preformat_first(&self) {}
+    fn decorate_preformat_cont(&self) {}
+    fn decorate_image(&mut self, _s: &str, t: &str) -> (String, ()) { (t.into(), ()) }
+    fn header_prefix(&self, l: usize) -> String { self.header.repeat(l) + " " }
+    fn quote_prefix(&self) -> String { self.quote.into() }
+    fn unordered_item_prefix(&self) -> String { self.bullet.into() }
+    fn ordered_item_prefix(&self, i: i64) -> String { format!("{}{}", i, self.ol_suffix) }
+    fn make_subblock_decorator(&self) -> Self { self.clone() }
+}
+
+/// C16: decorators with non-ASCII prefixes: no panic, no line wider than the width, content wrapped at width - display width
+fn c16_prefix() {
+    let decs = [
+        Dec { quote: "> ", bullet: "* ", header: "#", ol_suffix: ". " },
+        Dec { quote: "\u{2502} ", bullet: "\u{2022} ", header: "\u{a7}", ol_suffix: "\u{ff09}" },
+        Dec { quote: "\u{3016}", bullet: "", header: "\u{3016}", ol_suffix: "\u{3001} " },
+    ];
+    let docs = ["<blockquote>hello world foo bar baz</blockquote>", "<ul><li>hello world foo bar baz</ul>", "<h2>hello world foo bar baz</h2>",
+                "<ol><li>hello world foo bar baz<li>second item here</ol>", "<ol start=9><li>hello world foo<li>second item here</ol>"];
+    let mut cases = 0u64;
+    for d in &decs { for doc in docs { for w in 6..=20usize {
+        cases += 1;
+        let dd = d.clone(); let h = doc.to_string();
+        let r = panic::catch_unwind(move || config::with_decorator(dd).string_from_read(h.as_bytes(), w));
+        match r {
+            Err(_) => found("c16_prefix", &format!("width={} quote={:?} bullet={:?} header={:?} ol_suffix={:?} html={}", w, d.quote, d.bullet, d.header, d.ol_suffix, doc), "panic"),
+            Ok(Err(_)) => {}
+            Ok(Ok(s)) => for l in s.lines() {
+                if UnicodeWidthStr::width(l) > w { found("c16_prefix", &format!("width={} quote={:?} bullet={:?} header={:?} ol_suffix={:?} html={}", w, d.quote, d.bullet, d.header, d.ol_suffix, doc), &format!("line {:?} is {} columns wide", l, UnicodeWidthStr::width(l))); }
+            },
+        }
+    }}}
+    println!("NONE {}", cases);
+}
+
+
+/// C01/C07: ordered lists with extreme start values
+fn c07_ol() {
+    let starts = ["9223372036854775807", "9223372036854775806", "-9223372036854775808", "0", "-1", "98"];
+    let mut cases = 0u64;
+    for st in starts { for n in 1..=3usize { for w in [6usize, 30] {
+        let mut html = format!("<ol start=\"{}\">", st);
+        for i in 0..n { html.push_str(&format!("<li>item{}</li>", i)); }
+        html.push_str("</ol>");
+        cases += 1;
+        let h = html.clone();
+        match panic::catch_unwind(move || config::plain().string_from_read(h.as_bytes(), w)) {
+            Err(_) => found("c07_ol", &format!("width={} html={}", w, html), "panic"),
+            Ok(_) => {}
+        }
+    }}}
+    println!("NONE {}", cases);
+}
+
 fn main() {
     let mode = std::env::args().nth(1).unwrap_or_default();
     panic::set_hook(Box::new(|_| {}));
@@ -237,6 +307,8 @@ fn main() {
         "c19" => c19(),
         "c19_inherit" => c19_inherit(),
         "dbg" => dbg(),
+        "c07_ol" => c07_ol(),
+        "c16_prefix" => c16_prefix(),
         "c20_nth" => c20_nth(),
         "c01_engine" => c01_engine(),
         "c02_tables" => c02_tables(),
